@@ -150,6 +150,9 @@ def inject(rng, segs, d, rows, force_kind=None, force_i=None):
             if not notes:
                 continue
             code, idxs = rng.choice(notes)
+            cnotes = [n_ for n_ in notes if n_[0] in ('C', 'L')]
+            if cnotes and rng.random() < 0.7:
+                code, idxs = rng.choice(cnotes)          # conditional notes: the kind whose boundary (condition element LAST) is easy to get wrong
             vals = parts[1:] + [''] * (len(kids) - len(parts) + 1)
 
             def fill(x):
@@ -166,7 +169,7 @@ def inject(rng, segs, d, rows, force_kind=None, force_i=None):
                     vals[x - 1] = ''
                 if vals[first - 1] == '':
                     vals[first - 1] = fill(first)
-                if rng.random() < 0.6:
+                if rng.random() < (0.85 if code in ('C', 'L') else 0.6):
                     vals = vals[:first]          # nothing after it
             elif code == 'R':
                 for x in idxs:
@@ -175,20 +178,32 @@ def inject(rng, segs, d, rows, force_kind=None, force_i=None):
                 for x in idxs[:2]:
                     if vals[x - 1] == '':
                         vals[x - 1] = fill(x)
-            # other notes of the segment must not fire as well: keep only single-note changes
-            touched = set(idxs)
-            others = [n2 for n2 in notes if n2 != (code, idxs) and touched & set(n2[1])]
-            if others or len(getattr(node, 'syntax', [])) != len(notes) and any(touched & set(int(x) for x in n3[1:] if str(x).isdigit()) for n3 in node.syntax if (n3[0], [int(x) for x in n3[1:]]) != (code, idxs)):
-                continue
+            # other notes of the segment must not fire as well (judged by the X12 definition on the new presence pattern)
             while vals and vals[-1] == '':
                 vals.pop()
+            import C14 as _c14
+            fired_other = False
+            for n3 in getattr(node, 'syntax', []) or []:
+                try:
+                    c3, i3 = n3[0], [int(x) for x in n3[1:]]
+                except Exception:  # noqa
+                    fired_other = True
+                    break
+                if (c3, i3) == (code, idxs):
+                    continue
+                pres3 = [x <= len(vals) and vals[x - 1] != '' for x in i3]
+                if c3 not in ('P', 'C', 'R', 'E', 'L') or _c14.violated_py(c3, pres3):
+                    fired_other = True
+                    break
+            if fired_other:
+                continue
             if not vals:
                 continue
             new = list(segs)
             new[i] = d[1].join([parts[0]] + vals)
             if new[i] == segs[i]:
                 continue
-            return kind + ':' + code, new, (['2'], line, None, 'e'), False
+            return kind + ':' + code, new, ((['10'] if code == 'E' else ['2']), line, None, 'e'), False
         if kind == 'wrong_format':
             # DTP: the value is well formed for ANOTHER format the qualifier element allows, not for the one declared
             if sid != 'DTP' or len(parts) < 4 or len(kids) < 3:
@@ -293,6 +308,7 @@ def run(ctx, report):
         plan = [(None, None)] * (8 if thorough else 5)
         with_notes = [i for i, r in enumerate(rows) if r[2] is not None and r[1] not in docgen.ENVELOPE and getattr(r[2], 'syntax', None)]
         rng.shuffle(with_notes)
+        with_notes.sort(key=lambda i: 0 if any(str(nt[0]) in ('C', 'L') for nt in rows[i][2].syntax) else 1)   # conditional notes first
         plan += [('syntax_note', i) for i in with_notes[:(10 if thorough else 6)]]
         req_loops = [i for i, r in enumerate(rows) if r[2] is not None and r[1] not in docgen.ENVELOPE and r[2].is_first_seg_in_loop()
                      and getattr(r[2].parent, 'usage', None) == 'R']
